@@ -60,7 +60,9 @@ std::string genGo(Rng& r, const pg::GenPos& gp, long long costNs, const GoOpts& 
         if (mtg >= 0) go += " movestogo " + std::to_string(mtg);
     } else if (kind < 87) {
         go += " mate " + std::to_string(r.range(1, 4));
-        if (gp.men > 8) go += " nodes " + std::to_string(T);
+        // always with a node cap: under weak-play settings even a depth-7 mate search of a sparse position can exceed the
+        // node budget of a run
+        go += " nodes " + std::to_string(gp.men > 8 ? T : std::max<long long>(T, 20000));
     } else if (kind < 95) {
         go += " infinite";
         needsRelease = true;
